@@ -146,6 +146,7 @@ func (d *DFA) NewCache() *DFACache {
 //	pos := dfa.Find([]byte("say hello world"))
 //	// pos == 4
 func (d *DFA) Find(cache *DFACache, haystack []byte) int {
+	cache.ResetClearCount() // MaxCacheClears is a budget per search, not per cache lifetime
 	return d.FindAt(cache, haystack, 0)
 }
 
@@ -156,6 +157,7 @@ func (d *DFA) Find(cache *DFACache, haystack []byte) int {
 // Unlike Find, it takes the FULL haystack and a starting position, so assertions
 // like ^ correctly check against the original input start, not a sliced position.
 func (d *DFA) FindAt(cache *DFACache, haystack []byte, at int) int {
+	cache.ResetClearCount() // MaxCacheClears is a budget per search, not per cache lifetime
 	if at > len(haystack) {
 		return -1
 	}
@@ -194,6 +196,7 @@ func (d *DFA) FindAt(cache *DFACache, haystack []byte, at int) int {
 // (e.g., via reverse search) and needs forward DFA scan for greedy matching.
 // Unlike FindAt, this always uses direct DFA search, avoiding prefilter overhead.
 func (d *DFA) SearchAt(cache *DFACache, haystack []byte, at int) int {
+	cache.ResetClearCount() // MaxCacheClears is a budget per search, not per cache lifetime
 	if at > len(haystack) {
 		return -1
 	}
@@ -223,6 +226,7 @@ func (d *DFA) SearchAt(cache *DFACache, haystack []byte, at int) int {
 // requires the match to begin exactly at position 'at' (no implicit (?s:.)*? prefix).
 // This is used by ReverseSuffix after finding match start via reverse DFA.
 func (d *DFA) SearchAtAnchored(cache *DFACache, haystack []byte, at int) int {
+	cache.ResetClearCount() // MaxCacheClears is a budget per search, not per cache lifetime
 	if at > len(haystack) {
 		return -1
 	}
@@ -337,6 +341,7 @@ func (d *DFA) SearchAtAnchored(cache *DFACache, haystack []byte, at int) int {
 // then reverse DFA finds the exact start. Leftmost-longest would over-extend
 // past the first match for patterns like "[^"]*" on input with multiple matches.
 func (d *DFA) SearchFirstAt(cache *DFACache, haystack []byte, at int) int {
+	cache.ResetClearCount() // MaxCacheClears is a budget per search, not per cache lifetime
 	if at > len(haystack) {
 		return -1
 	}
@@ -534,6 +539,7 @@ func (d *DFA) searchFirstAt(cache *DFACache, haystack []byte, startPos int) int 
 //	    fmt.Println("Pattern matches!")
 //	}
 func (d *DFA) IsMatch(cache *DFACache, haystack []byte) bool {
+	cache.ResetClearCount() // MaxCacheClears is a budget per search, not per cache lifetime
 	if len(haystack) == 0 {
 		return d.matchesEmpty(cache)
 	}
@@ -550,6 +556,7 @@ func (d *DFA) IsMatch(cache *DFACache, haystack []byte) bool {
 // This is O(k) where k is the distance to the first match, vs FindAt's O(n)
 // which always scans for the longest match.
 func (d *DFA) IsMatchAt(cache *DFACache, haystack []byte, at int) bool {
+	cache.ResetClearCount() // MaxCacheClears is a budget per search, not per cache lifetime
 	if at >= len(haystack) {
 		if at == len(haystack) {
 			return d.matchesEmpty(cache)
@@ -1879,6 +1886,7 @@ func (d *DFA) byteToClass(b byte) byte {
 // For reverse search, a "match" means the reverse DFA reached a match state,
 // which corresponds to finding the START of a match in the original direction.
 func (d *DFA) SearchReverse(cache *DFACache, haystack []byte, start, end int) int { //nolint:funlen // 4x unrolled reverse DFA search
+	cache.ResetClearCount() // MaxCacheClears is a budget per search, not per cache lifetime
 	if end <= start || end > len(haystack) {
 		return -1
 	}
@@ -2057,6 +2065,7 @@ const SearchReverseLimitedQuadratic = -2
 //   - -2 (SearchReverseLimitedQuadratic): scan was limited by minStart, caller should
 //     retry with a different strategy
 func (d *DFA) SearchReverseLimited(cache *DFACache, haystack []byte, start, end, minStart int) int {
+	cache.ResetClearCount() // MaxCacheClears is a budget per search, not per cache lifetime
 	if end <= start || end > len(haystack) {
 		return -1
 	}
@@ -2154,6 +2163,7 @@ func (d *DFA) SearchReverseLimited(cache *DFACache, haystack []byte, start, end,
 //
 // Zero-allocation implementation that reads bytes in reverse order.
 func (d *DFA) IsMatchReverse(cache *DFACache, haystack []byte, start, end int) bool {
+	cache.ResetClearCount() // MaxCacheClears is a budget per search, not per cache lifetime
 	if end <= start || end > len(haystack) {
 		return false
 	}
